@@ -643,4 +643,5 @@ def run(run, model):
     from rules import c03
     run.rule("R07.10", "no residue of type parameters: a type parameter that can never be inferred is rejected where the function is declared (shared with C03 R03.17)")
     run.try_rule(c03.r03_17, model)
+    run.try_rule(c03.r03_17b, model)
     run.assume("after the typer no TVar remains and TParam occurs only in generic definitions (C03 clauses)")
